@@ -114,6 +114,15 @@ func (ex *Exec) assume(reach, cond T) {
 	ex.emit(fmt.Sprintf("(assert %s)", implies(reach, cond).s))
 }
 
+// assumeKind tags the assumption with where it comes from (lemma: proved anchored assertion; inv: loop invariant;
+// pre: precondition; post: callee postcondition) so that the solver can be offered reduced sets of quantified facts.
+func (ex *Exec) assumeKind(kind string, reach, cond T) {
+	if cond.s == "true" {
+		return
+	}
+	ex.emit(fmt.Sprintf("(assert %s) ;@%s", implies(reach, cond).s, kind))
+}
+
 func (ex *Exec) oblige(name, kind string, props []string, reach, cond T, where, text string) {
 	if ex.dry > 0 {
 		return
